@@ -1031,6 +1031,41 @@ class SymSeq:
     def __ne__(self, o):
         return b_not(self.eq(o))
 
+    def _lex(self, o, strict):
+        """lexicographic order (unsigned units), like bytes / ASCII str comparison"""
+        o2 = self._coerce(o)
+        if o2 is None:
+            return NotImplemented
+        self._need_plain("ordering")
+        o2._need_plain("ordering")
+        if self.kind == "str" and not (self.all_ascii() and o2.all_ascii()):
+            raise Unsupported("ordering of non-ascii text")
+        a, b = self.items, o2.items
+        n = min(len(a), len(b))
+        # result for equal common prefix
+        tail = (len(a) < len(b)) if strict else (len(a) <= len(b))
+        res = tail
+        for k in range(n - 1, -1, -1):
+            x, y = unit_term(a[k]), unit_term(b[k])
+            lt = mk_bool(z3.ULT(x, y)) if not (isinstance(a[k], int) and isinstance(b[k], int)) else (a[k] < b[k])
+            eq = unit_eq(a[k], b[k])
+            res = b_or(lt, b_and(eq, res))
+        return res
+
+    def __lt__(self, o):
+        return self._lex(o, True)
+
+    def __le__(self, o):
+        return self._lex(o, False)
+
+    def __gt__(self, o):
+        o2 = self._coerce(o)
+        return NotImplemented if o2 is None else o2._lex(self, True)
+
+    def __ge__(self, o):
+        o2 = self._coerce(o)
+        return NotImplemented if o2 is None else o2._lex(self, False)
+
     def __hash__(self):
         raise Unsupported("hash() of a symbolic %s" % self.kind)
 
